@@ -1221,6 +1221,7 @@ def c09(run):
     chain_stage(run, driver, sealed, {"C01"}, "L2 sealed-envelope mutation")
     chainmut_stage(run, driver, 3000 if run.tier == "quick" else 60000, "L3 wire mutation (sealed and unsealed tokens)")
     foreign_stage(run, driver)
+    corpus_stage(run, driver)
     # same authorization outcome sealed vs unsealed: the two-block Authz instances with the token sealed
     insts = []
     ra = core.tlc(run.work, "AuthzMC", "AuthzMC_two", timeout=3000)
@@ -1424,6 +1425,7 @@ def c07(run):
     # histories (siblings, seal, reload, GetBlockID) from the SymHeap generator: serialized bytes, reloaded content and
     # revocation ids of every token must stay what they were at creation (C07: "all build/append/seal/serialize/unmarshal sequences")
     foreign_stage(run, driver)
+    corpus_stage(run, driver)
     hist = gen_cases(run, driver, "heap")[:600 if run.tier == "quick" else 6000]
     heap_expectations(run, hist)
     heap_stage(run, driver, hist, "history")
@@ -1497,7 +1499,7 @@ REPLAYERS["chainmut"] = replay_chainmut
 # =============================================================== C10 untrusted bytes (WireAdversary)
 
 def adv_text(c):
-    t = " + ".join("%s=%s" % (k["f"], k["v"]) for k in c["knobs"]) or "valid token"
+    t = " + ".join("%s=%s" % (k["f"], k["v"]) for k in c["knobs"]) or ("conformance sample " + c["file"] if c.get("file") else "valid token")
     return t + (" + byte corruption #%d" % c["corrupt"] if c.get("corrupt") else "")
 
 
@@ -1537,6 +1539,11 @@ def c10(run):
     for i in range(ncor):
         base = rnd.choice(r.cases)["knobs"] if i % 3 == 0 else []
         cases.append({"id": "b%d" % i, "knobs": base, "gated": False, "corrupt": run.seed * 1000003 + i + 1})
+    pub, tcs = corpus_files()
+    for i in range((1500 if run.tier == "quick" else 40000) if tcs else 0):
+        t = tcs[i % len(tcs)]
+        cases.append({"id": "c%d" % i, "knobs": [], "gated": False, "file": t["filename"], "rootpub": pub,
+                      "corrupt": 0 if i < len(tcs) else run.seed * 7919 + i})
     res = core.run_driver(driver, "adv", cases, per_case_timeout=120)
     by_id = {c["id"]: c for c in cases}
     nrep = 0
@@ -1554,6 +1561,53 @@ def c10(run):
     run.traces += len(cases)
     run.sample({"case": adv_text(cases[100]), "must_be_rejected": cases[100]["gated"]})
     run.sample({"case": adv_text(cases[-1])})
+
+
+def corpus_files():
+    d = os.path.join(core.REPO, "samples", "data", "current")
+    try:
+        meta = json.load(open(os.path.join(d, "samples.json")))
+    except (OSError, ValueError):
+        return None, []
+    return meta["root_public_key"], meta["testcases"]
+
+
+def corpus_stage(run, driver):
+    """the repository's conformance samples (written by the reference implementation) as foreign-encoder inputs"""
+    pub, tcs = corpus_files()
+    if not tcs:
+        run.notes.append("no conformance samples found under /repo/samples: corpus stage skipped")
+        return
+    cases = [{"id": "s%d" % i, "file": t["filename"], "rootpub": pub} for i, t in enumerate(tcs)]
+    res = core.run_driver(driver, "corpus", cases, per_case_timeout=60)
+    for c, t in zip(cases, tcs):
+        o = res[c["id"]]
+        run.count("sample " + c["file"])
+        if o.get("crash") or "bad" not in o:
+            run.report({"what": "crash", "file": c["file"]}, c, "corpus", "conformance sample %s: %s" % (c["file"], json.dumps(o)[:300]))
+            continue
+        bad = list(o["bad"])
+        if o["unmarshal"] and o.get("verifies") and all(v == 3 for v in o["versions"]):
+            exp = [b["symbols"] for b in t["token"]]
+            if o["symbols"] != exp:
+                bad.append("independently decoded symbol tables %s differ from the ones documented for the sample %s" % (o["symbols"], exp))
+        if bad:
+            rc = confirm_case(driver, "corpus", c, o, ("bad",))
+            run.report({"what": bad[0][:60], "file": c["file"]}, c, "corpus", "conformance sample %s: %s" % (c["file"], "; ".join(bad)), (lambda rc=rc: rc is not None))
+    run.traces += len(cases)
+
+
+def replay_corpus(run, body):
+    driver = core.build_driver(run.work)
+    c = dict(body["case"])
+    o = core.run_driver(driver, "corpus", [c], nproc=1)[str(c["id"])]
+    run.count("replay")
+    run.count("replay2")
+    if o.get("crash") or o.get("bad"):
+        run.report(body["sig"], c, "corpus", "replayed: %s" % (o.get("bad") or "process died"))
+
+
+REPLAYERS["corpus"] = replay_corpus
 
 
 def foreign_stage(run, driver):
